@@ -64,6 +64,43 @@ def _quant(self: Interp, node, st, kind, real=False):
     return z3.Exists(vars_, z3.And(to_z3(guard), body))
 
 
+_FSUM: dict = {}
+
+
+def _fsum(self: Interp, node, st):
+    """fsum(lambda j: term(j), n) = sum of term(j) for 0 <= j < n: an uninterpreted S with S(0) = 0 and
+    S(k+1) = S(k) + term(k) for all k >= 0 (definition by recursion; no induction is performed)."""
+    lam, nnode = node.args
+    var = lam.args.args[0].arg
+    text = ast.unparse(lam.body)
+    free = sorted({x.id for x in ast.walk(lam.body) if isinstance(x, ast.Name) and x.id != var})
+    key = (text, tuple((f, id(st.env.get(f))) if not isinstance(st.env.get(f), Ref)
+                       else (f, id(st.heap[st.env[f].rid])) for f in free))
+    if key not in _FSUM:
+        S = z3.Function(fresh_name("fsum"), z3.IntSort(), z3.RealSort())
+        kz = z3.Int(fresh_name("k"))
+        saved = dict(st.env)
+        nf = len(st.facts)
+        try:
+            st.env[var] = kz
+            from .values import to_real
+            term = to_real(self.eval(lam.body, st))
+        finally:
+            st.env = saved
+        inner = st.facts[nf:]
+        del st.facts[nf:]
+        ax = [S(0) == 0, z3.ForAll([kz], z3.Implies(kz >= 0, S(kz + 1) == S(kz) + term))]
+        for f in inner:
+            f = to_z3(f)
+            ax.append(z3.ForAll([kz], f) if _mentions(f, kz) else f)
+        _FSUM[key] = (S, ax)
+    S, ax = _FSUM[key]
+    for a in ax:
+        if not any(a.eq(f) for f in st.facts if is_z3(f)):
+            st.fact(a)
+    return S(to_z3(self.eval(nnode, st)))
+
+
 def _mentions(f, v):
     todo, seen = [f], set()
     while todo:
@@ -89,6 +126,8 @@ def call_outcomes(self: Interp, node: ast.Call, st: State):
             return [(st, _quant(self, node, st, nm), None)]
         if nm in ("forall_real", "exists_real") and nm not in st.env:
             return [(st, _quant(self, node, st, nm[:-5], real=True), None)]
+        if nm == "fsum" and len(node.args) == 2 and isinstance(node.args[0], ast.Lambda):
+            return [(st, _fsum(self, node, st), None)]
         if nm == "implies":
             a = self.truth(self.eval(node.args[0], st), st)
             if not isinstance(a, bool) and self.in_contract:
